@@ -1,5 +1,5 @@
 """Which contracts decide which property."""
-from . import indexing, bases, align, axes, metadata, reshape, dataset, missing
+from . import indexing, bases, align, axes, metadata, reshape, dataset, missing, transform
 
 GLOBAL_ASSUMPTIONS = [
     "NumPy implements the contracts in dverif/symnp.py (validated by sampling against the installed NumPy, never proved)",
@@ -16,7 +16,7 @@ PROPERTIES = {
         "level": "proof",
         "min_obligations": 2000,
     },
-    "T": {"contracts": [missing.FillNa, missing.SetNa, missing.CompressAxis, missing.DropNa1D], "level": "proof"},
+    "T": {"contracts": [transform.Diff], "level": "proof"},
     "C03": {
         "contracts": [bases.SetItem, indexing.MaybeCastType, (bases.Accessors, r"write|put|setitem"), (bases.ItemForwarding, r"^set"),
                       (bases.GetIndices, r"^r[01]-")],
@@ -29,6 +29,16 @@ PROPERTIES = {
         "level": "other",
         "min_obligations": 2000,
         "explanation": "proved: direction / uniqueness / order of Axis.union and intersection, frame and sort of _get_aligned_axes (real bodies, exact identity), align's composition over the callee contracts (labels, data, NaN fill, dims, forwarding, inputs untouched), reindex_axis. bounded stand-in (exhaustive, lengths <= 3): the set-inclusion clauses of union / intersection / _common_axis, on which the 'set union / intersection' sentence of the property rests.",
+    },
+    "C08": {
+        "contracts": [transform.Reduce, transform.ReduceNativeOnly],
+        "level": "proof",
+        "min_obligations": 400,
+    },
+    "C09": {
+        "contracts": [transform.Cumulative, transform.ArgExtremum, transform.Diff],
+        "level": "proof",
+        "min_obligations": 600,
     },
     "C10": {
         "contracts": [reshape.Transpose, reshape.SwapAxes, reshape.RollAxis, reshape.NewAxis, reshape.Squeeze, reshape.Repeat],
